@@ -36,14 +36,14 @@ theorem ImpN.det {s : AggState} {n : Str} {F F' : Forest} (h : ImpN s n F) (h' :
 
 theorem IWF.congr {T : Types} {S S' : Nat → Prop} (h : IWF T S) (hS : ∀ j, S' j → S j) : IWF T S' := by
   intro j itf hj x hx
-  rcases h j itf hj x hx with h1 | ⟨t, h1, h2, h3⟩
+  rcases h j itf hj x hx with h1 | ⟨b, t, h1, h2, h3⟩
   · exact .inl h1
-  · exact .inr ⟨t, h1, fun hc => h2 (hS t hc), h3⟩
+  · exact .inr ⟨b, t, h1, fun hc => h2 (hS t hc), h3⟩
 
 /-- the type-level invariant for nested requirements -/
 structure TInvN (W : Colls) (seen : List (Req × Forest)) (cls : Str → Str) (s : AggState) : Prop where
   ainv : AInv W s
-  nested : s.cfg.nestedMerge = true
+  nested : s.cfg.nestedMerge = true ∧ s.cfg.typeMerge = true
   iwf : IWF s.agg.types (ImpIds s)
   imp : ∀ n k, amGet s.agg.imports n = some k → ∃ F, ImpN s n F
   inj : ∀ n1 n2 e, amGet s.agg.imports n1 = some (.instance e) → amGet s.agg.imports n2 = some (.instance e) → n1 = n2
@@ -70,9 +70,9 @@ theorem TInvN.cov {W : Colls} {seen : List (Req × Forest)} {cls : Str → Str} 
   obtain ⟨e, ti, _, h2, ⟨m, hm⟩, _⟩ := hF
   simp only [Spec.cov]
   refine covF_unfoldItems ti.exports F (fun x hx t ht => cov_unfold h.iwf m x.2 t ?_ ht) hm
-  rcases h.iwf e ti h2 x hx with h1 | ⟨t1, h1, _⟩
+  rcases h.iwf e ti h2 x hx with h1 | ⟨b1, t1, h1, _⟩
   · exact .inl h1
-  · exact .inr ⟨t1, h1⟩
+  · exact .inr ⟨b1, t1, h1⟩
 
 theorem impIds_lt {W : Colls} {seen : List (Req × Forest)} {cls : Str → Str} {s : AggState} (h : TInvN W seen cls s)
     {j : Nat} (hj : ImpIds s j) : j < s.agg.types.interfaces.length := by
@@ -105,8 +105,12 @@ theorem TInvN.merge (hT : TInvN W seen cls s) {r : Req} {G : Forest} (hr : NestR
     intro i0 i' hg
     obtain ⟨p, hp, hu⟩ := hT.keys (GTy.mk' r.2.1 (.interface i0)) rfl (by rw [hg]; rfl)
     exact absurd (hu.trans (gty_uid_of_hasId _ _ rfl)) (hfresh p hp)
+  have hish : ∀ i0 ty, alGet s.agg.remapped (GTy.mk' r.2.1 (.interface i0)) = some ty → ∃ i', ty = .interface i' := by
+    intro i0 ty hg
+    obtain ⟨p, hp, hu⟩ := hT.keys (GTy.mk' r.2.1 (.interface i0)) rfl (by rw [hg]; rfl)
+    exact absurd (hu.trans (gty_uid_of_hasId _ _ rfl)) (hfresh p hp)
   have hNS : NState W r.2.1 (ImpIds s) e s F :=
-    ⟨⟨hT.ainv, hT.iwf, fun j hj => impIds_lt hT hj, hik⟩, hT.nested, ⟨en, hget⟩, ⟨ti, hti, m, hm⟩, hFnd⟩
+    ⟨⟨hT.ainv, hT.iwf, fun j hj => impIds_lt hT hj, hik, hish⟩, hT.nested, ⟨en, hget⟩, ⟨ti, hti, m, hm⟩, hFnd⟩
   obtain ⟨R, hN1, hst, hmeet⟩ := mergeInterface_nest hW hr.sane _ (ImpIds s) e i s s1 F G d hNS hsrc hGs hr.nd h
   have hids : ∀ j, ImpIds s1 j ↔ ImpIds s j := fun j => by simp only [ImpIds, hst.imports]
   have hfr : Frame (ImpIds s) s.agg.types s1.agg.types := hst.frame ⟨en, hget⟩
@@ -196,7 +200,11 @@ theorem TInvN.fresh (hT : TInvN W seen cls s) {r : Req} {G : Forest} (hr : NestR
     intro i0 i' hg
     obtain ⟨p, hp, hu⟩ := hT.keys (GTy.mk' r.2.1 (.interface i0)) rfl (by rw [hg]; rfl)
     exact absurd (hu.trans (gty_uid_of_hasId _ _ rfl)) (hfresh p hp)
-  have hNI : NI W r.2.1 (ImpIds s) s := ⟨hT.ainv, hT.iwf, fun j hj => impIds_lt hT hj, hik⟩
+  have hish : ∀ i0 ty, alGet s.agg.remapped (GTy.mk' r.2.1 (.interface i0)) = some ty → ∃ i', ty = .interface i' := by
+    intro i0 ty hg
+    obtain ⟨p, hp, hu⟩ := hT.keys (GTy.mk' r.2.1 (.interface i0)) rfl (by rw [hg]; rfl)
+    exact absurd (hu.trans (gty_uid_of_hasId _ _ rfl)) (hfresh p hp)
+  have hNI : NI W r.2.1 (ImpIds s) s := ⟨hT.ainv, hT.iwf, fun j hj => impIds_lt hT hj, hik, hish⟩
   cases fuel with
   | zero => simp [remapKind, run_apanic] at h
   | succ fuel =>
@@ -250,7 +258,7 @@ theorem TInvN.fresh (hT : TInvN W seen cls s) {r : Req} {G : Forest} (hr : NestR
       rw [(keep n F0 h0).2.det h1] at h0; exact h0
     refine ⟨⟨⟨⟨hI1.ainv.rinv.sound, hI1.ainv.rinv.closed, hI1.ainv.rinv.shape⟩, hI1.ainv.cinv, hI1.ainv.nores⟩, ?_, ?_,
       ?_, ?_, ?_, ?_, ?_, ?_⟩, hst.imports, hst.redirects, hst.cfg⟩
-    · show s1'.cfg.nestedMerge = true
+    · show s1'.cfg.nestedMerge = true ∧ s1'.cfg.typeMerge = true
       rw [hst.cfg]; exact hT.nested
     · exact hiwf'.congr hids
     · intro n k hn
@@ -264,9 +272,9 @@ theorem TInvN.fresh (hT : TInvN W seen cls s) {r : Req} {G : Forest} (hr : NestR
     · intro n1 n2 e0 g1 g2
       rw [hgi] at g1 g2
       have hnotold : ¬ ImpIds s id' := by
-        rcases hfz with h0 | ⟨t0, h0, h2, _⟩
+        rcases hfz with h0 | ⟨w0, t0, h0, h2, _⟩
         · cases h0
-        · cases h0; exact h2
+        · obtain ⟨_, rfl⟩ := wrapK_inj (b := false) h0; exact h2
       by_cases a1 : r.1 = n1 <;> by_cases a2 : r.1 = n2
       · rw [← a1, ← a2]
       · have a2' : (r.1 == n2) = false := by simpa using a2
